@@ -152,3 +152,120 @@ func HandOffVsInflightRenewal(L time.Duration, k int) (out Outcome) {
 	}
 	return out
 }
+
+// StaleRenewalAfterReacquire: holder A's k-th renewal request is in flight when A unlocks; the SAME Locker
+// is acquired again (second tenure, new record); only then the stale renewal of the first tenure reaches the
+// storage (version conflict). When the second tenure unlocks, the lock must be released completely: no
+// record in the store, another provider's TryLock succeeds. Decided on logical steps (the events of the tap),
+// no time bound.
+func StaleRenewalAfterReacquire(L time.Duration, k int) (out Outcome) {
+	inner := inmem.New()
+	tA := New(inner)
+	pa := dist.NewKvsLockProvider(tA, "/lt/")
+	pb := dist.NewKvsLockProvider(inner, "/lt/")
+	for _, p := range []dist.LockProvider{pa, pb} {
+		dist.VerifSetLeaseTTL(p, L)
+		defer p.Shutdown()
+	}
+	la, lb := pa.NewLocker("x"), pb.NewLocker("x")
+	gCas := tA.Gate(fmt.Sprintf("Cas#%d:before", k))
+	la.Lock()
+	if !Arrived(gCas, time.Duration(k+2)*L+10*time.Second) {
+		close(gCas.Release)
+		la.Unlock()
+		return Outcome{Skipped: "renewal did not come"}
+	}
+	la.Unlock()
+	la.Lock() // second tenure of the same Locker
+	close(gCas.Release)
+	// the stale renewal is answered (conflict): wait until the tap has logged it
+	t0 := time.Now()
+	for done := false; !done; {
+		for _, e := range tA.Events() {
+			if e.Op == "Cas" && e.N == k {
+				done = true
+			}
+		}
+		if !done {
+			if time.Since(t0) > 30*time.Second {
+				la.Unlock()
+				return Outcome{Skipped: "the stale renewal was not answered"}
+			}
+			time.Sleep(time.Millisecond)
+		}
+	}
+	time.Sleep(5 * time.Millisecond) // let the renewal routine digest the answer
+	la.Unlock()
+	if _, err := inner.Get(context.Background(), "/lt/x"); err == nil {
+		out.Sig = "residue/record"
+		out.What = fmt.Sprintf("lease %v: renewal %d of the first tenure reached the storage (version conflict) during the second tenure of the same Locker; after the second tenure's Unlock the lock record is still in the store", L, k)
+	} else if !lb.TryLock(context.Background()) {
+		out.Sig = "residue/trylock-false"
+		out.What = fmt.Sprintf("lease %v: after a stale renewal during the second tenure and its Unlock, another provider's TryLock fails", L)
+	} else {
+		lb.Unlock()
+	}
+	return out
+}
+
+// SiblingAttemptVsHolder: G1 holds through Locker X; other goroutines try X.TryLock and X.LockWithCtx with
+// cancelled / short-lived contexts (all fail: X is held). G1 stays in for 2.5 leases. A Locker of another
+// provider spinning TryLock must never get the lock meanwhile.
+func SiblingAttemptVsHolder(L time.Duration) (out Outcome) {
+	stop := canary()
+	defer func() { out.Stall = stop() }()
+	inner := inmem.New()
+	pa := dist.NewKvsLockProvider(inner, "/lt/")
+	pb := dist.NewKvsLockProvider(inner, "/lt/")
+	for _, p := range []dist.LockProvider{pa, pb} {
+		dist.VerifSetLeaseTTL(p, L)
+		defer p.Shutdown()
+	}
+	la, lb := pa.NewLocker("x"), pb.NewLocker("x")
+	la.Lock()
+	sib := make(chan string, 3)
+	go func() {
+		if la.TryLock(context.Background()) {
+			sib <- "TryLock on the held Locker succeeded"
+			return
+		}
+		sib <- ""
+	}()
+	go func() {
+		ctx, cancel := context.WithCancel(context.Background())
+		cancel()
+		if err := la.LockWithCtx(ctx); err == nil {
+			sib <- "LockWithCtx with a cancelled context on the held Locker succeeded"
+			return
+		}
+		sib <- ""
+	}()
+	go func() {
+		ctx, cancel := context.WithTimeout(context.Background(), L/10)
+		defer cancel()
+		if err := la.LockWithCtx(ctx); err == nil {
+			sib <- "LockWithCtx on the held Locker succeeded"
+			return
+		}
+		sib <- ""
+	}()
+	for i := 0; i < 3; i++ {
+		if s := <-sib; s != "" {
+			out.Sig, out.What = "two-holders", s
+			return out
+		}
+	}
+	deadline := time.Now().Add(5 * L / 2)
+	for time.Now().Before(deadline) {
+		if lb.TryLock(context.Background()) {
+			out.Sig = "two-holders-after-sibling-attempt"
+			out.What = fmt.Sprintf("lease %v: while G1 held through a Locker, failed attempts of other goroutines on the same Locker (TryLock, LockWithCtx with cancelled and short contexts) were made; %v into the tenure another provider's TryLock succeeded although G1 has not unlocked", L, time.Since(deadline.Add(-5*L/2)).Round(time.Millisecond))
+			out.TimeBound = true
+			lb.Unlock()
+			break
+		}
+		time.Sleep(L / 10)
+	}
+	la.Unlock()
+	return out
+}
